@@ -1,0 +1,69 @@
+//go:build verif
+
+package rib
+
+import "sort"
+
+// VerifPendingIDs returns the ids of the held (pending) operations, sorted (verification hook).
+func (r *RIB) VerifPendingIDs() []uint64 {
+	r.pendMu.RLock()
+	defer r.pendMu.RUnlock()
+	ids := []uint64{}
+	for id := range r.pendingEntries {
+		ids = append(ids, id)
+	}
+	sort.Slice(ids, func(i, j int) bool { return ids[i] < ids[j] })
+	return ids
+}
+
+// VerifPendingNI returns the network instance a held operation is held for (verification hook).
+func (r *RIB) VerifPendingNI(id uint64) (string, bool) {
+	r.pendMu.RLock()
+	defer r.pendMu.RUnlock()
+	e, ok := r.pendingEntries[id]
+	if !ok {
+		return "", false
+	}
+	return e.ni, true
+}
+
+// VerifRefCounts is a copy of one network instance's reference counters.
+type VerifRefCounts struct {
+	NextHop      map[uint64]uint64
+	NextHopGroup map[uint64]uint64
+}
+
+// VerifRefCounts returns a copy of every network instance's reference counters,
+// zero-valued counters dropped (verification hook).
+func (r *RIB) VerifRefCounts() map[string]VerifRefCounts {
+	r.nrMu.RLock()
+	defer r.nrMu.RUnlock()
+	out := map[string]VerifRefCounts{}
+	for name, h := range r.niRIB {
+		c := VerifRefCounts{NextHop: map[uint64]uint64{}, NextHopGroup: map[uint64]uint64{}}
+		h.refCounts.mu.RLock()
+		for k, v := range h.refCounts.NextHop {
+			if v != 0 {
+				c.NextHop[k] = v
+			}
+		}
+		for k, v := range h.refCounts.NextHopGroup {
+			if v != 0 {
+				c.NextHopGroup[k] = v
+			}
+		}
+		h.refCounts.mu.RUnlock()
+		out[name] = c
+	}
+	return out
+}
+
+// VerifTryLock reports whether the network instance's lock can be taken
+// exclusively right now (and releases it again) (verification hook).
+func (r *RIBHolder) VerifTryLock() bool {
+	if r.mu.TryLock() {
+		r.mu.Unlock()
+		return true
+	}
+	return false
+}
